@@ -417,7 +417,9 @@ func (fr *Frame) instr(st *State, b *ssa.BasicBlock, in ssa.Instruction) (bool, 
 			}
 		case token.MUL: // load
 			pt := x.X.Type().Underlying().(*types.Pointer)
-			fr.safe(st, "nil", Neq(Rid(a), IntLit(0)), in, "nil pointer dereference")
+			if !derivedAddr(x.X) {
+				fr.safe(st, "nil", Neq(Rid(a), IntLit(0)), in, "nil pointer dereference")
+			}
 			v, err := vc.loadAt(st, a, pt.Elem())
 			if err != nil {
 				return false, havocValue(x, err.Error())
@@ -456,7 +458,9 @@ func (fr *Frame) instr(st *State, b *ssa.BasicBlock, in ssa.Instruction) (bool, 
 			return false, fr.unsupportedErr(in, err)
 		}
 		pt := x.Addr.Type().Underlying().(*types.Pointer)
-		fr.safe(st, "nil", Neq(Rid(a), IntLit(0)), in, "nil pointer dereference (store)")
+		if !derivedAddr(x.Addr) {
+			fr.safe(st, "nil", Neq(Rid(a), IntLit(0)), in, "nil pointer dereference (store)")
+		}
 		if err := vc.storeAt(st, a, pt.Elem(), v); err != nil {
 			vc.note("%s: %v", fr.pos(in.Pos()), err)
 			st.taint = True
@@ -554,7 +558,7 @@ func (fr *Frame) instr(st *State, b *ssa.BasicBlock, in ssa.Instruction) (bool, 
 		}
 		l := vc.toIndex(ln, x.Len.Type())
 		c := vc.toIndex(cp, x.Cap.Type())
-		fr.safe(st, "makeslice", And(Le(IntLit(0), l), Le(l, c), Lt(c, IntLitBig(pow2(47)))), in, "makeslice: len out of range")
+		fr.safe(st, "makeslice", And(Le(IntLit(0), l), Le(l, c), Lt(c, IntLitBig(pow2(62)))), in, "makeslice: len out of range")
 		elem := x.Type().Underlying().(*types.Slice).Elem()
 		base := vc.allocObject(st, nil)
 		if err := vc.zeroFill(st, base, elem); err != nil {
@@ -617,8 +621,7 @@ func (fr *Frame) instr(st *State, b *ssa.BasicBlock, in ssa.Instruction) (bool, 
 			es, _ := vc.tt.SortOf(elem)
 			// contents unconstrained: havoc that object's bytes
 			old := vc.heap(st, es)
-			nh := vc.Fresh("hs", heapSort(es))
-			st.assume(Term{fmt.Sprintf("(forall ((q!r Ref)) (! (=> (not (= (rid q!r) %s)) (= (select %s q!r) (select %s q!r))) :pattern ((select %s q!r))))", Rid(base).S, nh.S, old.S, nh.S), SBool})
+			nh := vc.MixHeap(es, old, Neq(Rid(Term{"q!r", SRef}), Rid(base)))
 			st.heaps[es] = nh
 			n := App(SInt, "strlen", a)
 			def(x, MkSlice(base, n, n))
@@ -764,6 +767,15 @@ func (fr *Frame) instr(st *State, b *ssa.BasicBlock, in ssa.Instruction) (bool, 
 		vc.havocAll(st)
 	}
 	return false, nil
+}
+
+// derivedAddr: addresses computed from a checked base (or fresh) need no second nil check.
+func derivedAddr(v ssa.Value) bool {
+	switch v.(type) {
+	case *ssa.IndexAddr, *ssa.FieldAddr, *ssa.Alloc, *ssa.Global:
+		return true
+	}
+	return false
 }
 
 var bigOne = newBig(1)
@@ -1160,7 +1172,7 @@ func (fr *Frame) enterLoop(li *loopInfo, pre *State, phis []*ssa.Phi, phiEntry m
 		for _, ss := range sl {
 			s := Sort(ss)
 			old := vc.heap(hs, s)
-			nh := vc.Fresh("hl", heapSort(s))
+			var nh Term
 			if !ef.unk[s] {
 				var conds []string
 				seen := map[string]bool{}
@@ -1170,15 +1182,10 @@ func (fr *Frame) enterLoop(li *loopInfo, pre *State, phis []*ssa.Phi, phiEntry m
 						conds = append(conds, fmt.Sprintf("(not (= (rid q!r) %s))", r.S))
 					}
 				}
-				hs.assume(Term{fmt.Sprintf("(forall ((q!r Ref)) (! (=> (and %s) (= (select %s q!r) (select %s q!r))) :pattern ((select %s q!r))))",
-					strings.Join(conds, " "), nh.S, old.S, nh.S), SBool})
-			} else if !ef.allocOnlyUnknown(s) {
+				nh = vc.MixHeap(s, old, Term{fmt.Sprintf("(and %s true)", strings.Join(conds, " ")), SBool})
+			} else {
 				// unknown targets: nothing preserved for this sort
-			}
-			// objects allocated inside the loop never alias objects allocated before it: preserved by alloc ordering
-			if ef.unk[s] && ef.onlyFresh(s) {
-				hs.assume(Term{fmt.Sprintf("(forall ((q!r Ref)) (! (=> (< (rid q!r) %s) (= (select %s q!r) (select %s q!r))) :pattern ((select %s q!r))))",
-					pre.alloc.S, nh.S, old.S, nh.S), SBool})
+				nh = vc.Fresh("hl", heapSort(s))
 			}
 			hs.heaps[s] = nh
 			vc.heapReg[s] = true
@@ -1234,8 +1241,6 @@ func (fr *Frame) enterLoop(li *loopInfo, pre *State, phis []*ssa.Phi, phiEntry m
 	return nil
 }
 
-func (ef *effects) allocOnlyUnknown(s Sort) bool { return false }
-func (ef *effects) onlyFresh(s Sort) bool        { return false }
 
 func (fr *Frame) loopBackEdge(li *loopInfo, from *ssa.BasicBlock, st *State) error {
 	vc := fr.vc
